@@ -1,6 +1,5 @@
 // Sessions against the real-filesystem backend (Stdfs) confined to a sandbox directory (C02).
-// The process cwd is the sandbox root; request paths are mapped into the sandbox, returned paths
-// are mapped back. After every op an independent observer (std::fs only: lstat / readlink / read)
+// The process chroots into a fresh sandbox directory, which then is `/`. After every op an independent observer (std::fs only: lstat / readlink / read)
 // dumps the sandbox in the abstract format `key:kind:perm:target:data`.
 use crate::util::*;
 use rivia::prelude::*;
@@ -17,46 +16,45 @@ fn hexs(s: &str) -> String {
 }
 
 impl Sbx {
+    /// the process confines itself to a fresh directory with chroot(2): inside, the sandbox directory
+    /// IS `/` (so `..` at the root stays at the root and absolute link texts need no translation)
     pub fn new() -> Self {
         let base = PathBuf::from(format!("/verif/work/sbx/{}", std::process::id()));
         let _ = std::fs::remove_dir_all(&base);
         std::fs::create_dir_all(&base).unwrap();
-        Sbx { root: base.clone(), n: 0 }
+        let c = std::ffi::CString::new(base.to_string_lossy().as_bytes()).unwrap();
+        let rc = unsafe { libc_chroot(c.as_ptr()) };
+        if rc != 0 {
+            eprintln!("chroot failed");
+            std::process::exit(3);
+        }
+        std::env::set_current_dir("/").unwrap();
+        Sbx { root: PathBuf::from("/"), n: 0 }
     }
 
     pub fn fresh(&mut self) {
-        // make everything removable again, then start a new sandbox root
+        // make everything removable again, then empty the root
         self.n += 1;
-        let base = PathBuf::from(format!("/verif/work/sbx/{}", std::process::id()));
         std::env::set_current_dir("/").unwrap();
-        let _ = chmod_tree(&self.root);
-        let _ = std::fs::remove_dir_all(&self.root);
-        self.root = base.join(format!("r{}", self.n));
-        std::fs::create_dir_all(&self.root).unwrap();
-        std::fs::set_permissions(&self.root, std::fs::Permissions::from_mode(0o755)).unwrap();
-        std::env::set_current_dir(&self.root).unwrap();
+        let _ = chmod_tree(Path::new("/"));
+        if let Ok(rd) = std::fs::read_dir("/") {
+            for e in rd.flatten() {
+                let p = e.path();
+                let is_dir = std::fs::symlink_metadata(&p).map(|m| m.is_dir()).unwrap_or(false);
+                let _ = if is_dir { std::fs::remove_dir_all(&p) } else { std::fs::remove_file(&p) };
+            }
+        }
+        std::fs::set_permissions("/", std::fs::Permissions::from_mode(0o755)).unwrap();
     }
 
-    /// map a request path into the sandbox: absolute paths are prefixed with the root
+    /// request paths are used as they are
     pub fn inp(&self, p: &str) -> String {
-        if p.starts_with('/') {
-            format!("{}{}", self.root.display(), p)
-        } else {
-            p.to_string()
-        }
+        p.to_string()
     }
 
-    /// map a returned path back
+    /// returned paths are shown as they are
     pub fn outp(&self, p: &Path) -> String {
-        let s = p.to_string_lossy().to_string();
-        let r = self.root.to_string_lossy().to_string();
-        if s == r {
-            "/".to_string()
-        } else if let Some(x) = s.strip_prefix(&(r.clone() + "/")) {
-            format!("/{}", x)
-        } else {
-            format!("OUTSIDE:{}", s)
-        }
+        p.to_string_lossy().to_string()
     }
 
     pub fn dump(&self) -> String {
@@ -147,7 +145,8 @@ pub fn op(sb: &Sbx, v: &Stdfs, name: &str, a: &[&str]) -> Option<String> {
         ("remove", 1) => { let p = s(0)?; guarded(|| show_res(v.remove(&p), |_| "u".to_string())) },
         ("remove_all", 1) => { let p = s(0)?; guarded(|| show_res(v.remove_all(&p), |_| "u".to_string())) },
         ("symlink", 2) => { let (l, t) = (s(0)?, s(1)?); guarded(|| show_res(v.symlink(&l, &t), sp)) },
-        ("readlink", 1) => { let p = s(0)?; guarded(|| show_res(v.readlink(&p), |x| show_path(x))) },
+        // the link text: an absolute text lives inside the sandbox and is mapped back like every returned path
+        ("readlink", 1) => { let p = s(0)?; guarded(|| show_res(v.readlink(&p), |x| if x.is_absolute() { format!("s:{}", hexs(&sb.outp(x))) } else { show_path(x) })) },
         ("readlink_abs", 1) => { let p = s(0)?; guarded(|| show_res(v.readlink_abs(&p), sp)) },
         ("set_cwd", 1) => { let p = s(0)?; guarded(|| show_res(v.set_cwd(&p), sp)) },
         ("cwd", 0) => guarded(|| show_res(v.cwd(), sp)),
@@ -197,12 +196,12 @@ pub fn run<R: std::io::BufRead, W: IoWrite>(input: R, out: &mut W) {
             None => writeln!(out, "bad-op").unwrap(),
         }
     }
-    std::env::set_current_dir("/").unwrap();
-    let _ = chmod_tree(&sb.root);
-    let _ = std::fs::remove_dir_all(format!("/verif/work/sbx/{}", std::process::id()));
+    sb.fresh();
 }
 
 extern "C" {
     #[link_name = "umask"]
     fn libc_umask(mask: u32) -> u32;
+    #[link_name = "chroot"]
+    fn libc_chroot(path: *const std::os::raw::c_char) -> i32;
 }
